@@ -1398,4 +1398,40 @@ example : (List.range 5).map (fun a => qbinOccupancy [5, 1, 4, 2, 3, 7, 6] 3 (In
 example : (List.range 5).map (fun a => qbinOccupancy [5, 1, 4, 2, 3] 4 (Int.ofNat a)) =
     [2, 2, 1, 0, 0] := by decide +kernel
 
+/-! ## Round 5: the result of the elimination is a two-sided inverse -/
+
+/-- **two-sided** (closes "`gjInverse_correct` is the left inverse only"): for every matrix `C`,
+symmetric or not, whatever `gjInverse` returns satisfies `C · P = I` as well as `P · C = I` on the
+indices `< N` — the hypothesis `C · P = I` of `normInv_is_partial_correlation` /
+`schur_complement_inverse` is met by the model's own output without the symmetry detour -/
+theorem gjInverse_two_sided (C : Nat → Nat → Rat) (N : Nat) (P : Nat → Nat → Rat)
+    (h : gjInverse C N = some P) (i j : Nat) (hi : i < N) (hj : j < N) :
+    sumTo N (fun l => P i l * C l j) = (if i = j then 1 else 0) ∧
+      sumTo N (fun l => C i l * P l j) = (if i = j then 1 else 0) :=
+  ⟨gjInverse_correct C N P h i j hi hj,
+   left_inverse_is_right C P N (fun a b ha hb => gjInverse_correct C N P h a b ha hb) i j hi hj⟩
+
+/-- the inverse is unique: any left inverse of `C` on the indices `< N` is what the elimination
+returns (entry by entry) -/
+theorem gjInverse_unique (C : Nat → Nat → Rat) (N : Nat) (P Q : Nat → Nat → Rat)
+    (h : gjInverse C N = some P)
+    (hQ : ∀ i j, i < N → j < N → sumTo N (fun l => Q i l * C l j) = if i = j then 1 else 0)
+    (i j : Nat) (hi : i < N) (hj : j < N) : Q i j = P i j := by
+  -- (Q - P) · C = 0 and C · P = I: the kernel lemma for the transposed system
+  have key := left_inverse_kernel (fun a b => C b a) (fun a b => P b a) N
+    (fun a b ha hb => by
+      have := (gjInverse_two_sided C N P h b a hb ha).2
+      rw [sumTo_congr (g := fun l => C b l * P l a) (fun l _ => by ring), this]
+      by_cases e : a = b
+      · rw [if_pos e, if_pos e.symm]
+      · rw [if_neg e, if_neg (fun x => e x.symm)])
+    (fun l => Q i l - P i l)
+    (fun m hm => by
+      rw [sumTo_congr (g := fun l => (Q i l - P i l) * C l m) (fun l _ => by ring)]
+      have e : (fun l => (Q i l - P i l) * C l m) = fun l => (Q i l - 1 * P i l) * C l m := by
+        funext l; ring
+      rw [e, sumTo_lin, hQ i m hi hm, gjInverse_correct C N P h i m hi hm]; ring)
+  have := key j hj
+  exact sub_eq_zero.mp this
+
 end Pyunicorn.Coupling
